@@ -689,8 +689,8 @@ def flow_spec(t, rng, tier, shape="S1", noise="depolarized", light=False):
             cases = cases[1:]
     elif t == "povm":
         cases = [{"est": "lsq", "para": pT()}, {"est": "lin", "para": pT()}, {"est": "plin", "para": pT()}]
-        if tier == "thorough" and not light:
-            cases.append({"est": "mle", "para": True})
+        if tier == "thorough" and not light and rng.random() < 0.25:
+            cases.append({"est": "mle", "para": True})  # POVM max-likelihood is ~10x the cost of the other cases
         num_data = [[100, 1000], [100, 300, 1000], [500, 5000]][int(rng.integers(0, 3))]
     else:
         cases = [{"est": "lsq", "para": True}, {"est": "lin", "para": pT()}, {"est": "plin", "para": pT()}]
@@ -1343,7 +1343,7 @@ def shards(tier, seed):
     # flows under workers: 8 shards (4 types x worker count 2 / 4); the two shards of a type share their settings
     for t in TYPES:
         heavy = t in ("gate", "mprocess")
-        n = (2 if t == "state" else 1) if q else (3 if heavy else 6)
+        n = (2 if t == "state" else 1) if q else {"state": 6, "povm": 4, "gate": 3, "mprocess": 3}[t]
         for k in (2, 4):
             noises = ["depolarized", "lindbladian"] if not heavy or not q else (["depolarized"] if t == "gate" else ["lindbladian"])
             out.append({"kind": "flow", "type": t, "workers": k, "group": f"w:{t}", "n": n, "noises": noises,
@@ -1351,8 +1351,10 @@ def shards(tier, seed):
     # serial flows: more settings, fresh-process child, mixed noise methods
     for t in TYPES:
         heavy = t in ("gate", "mprocess")
-        out.append({"kind": "flow", "type": t, "workers": 0, "group": f"s:{t}", "n": {"state": 3, "povm": 3, "gate": 2, "mprocess": 1}[t] if q else (6 if heavy else 16),
-                    "noises": ["lindbladian", "depolarized"], "reest": True, "fresh": True, "weight": 60 if heavy else 40})
+        for part in (["a"] if q else ["a", "b"]):
+            out.append({"kind": "flow", "type": t, "workers": 0, "group": f"s:{t}:{part}",
+                        "n": {"state": 3, "povm": 3, "gate": 2, "mprocess": 1}[t] if q else {"state": 8, "povm": 6, "gate": 4, "mprocess": 3}[t],
+                        "noises": ["lindbladian", "depolarized"], "reest": True, "fresh": True, "weight": 60 if heavy else 40})
     out.append({"kind": "flow", "type": "state", "workers": 0, "group": "mixed", "n": 3 if q else 9,
                 "noises": ["dep+rl", "ideal+rl", "rl+dep"], "reest": False, "fresh": False, "weight": 5})
     if not q:
